@@ -674,9 +674,12 @@ func (r *Rec) RunBattery(bt Battery) {
 		}
 	}
 	if bt.Prefix != 0 && d.HasPrefix() {
+		uni := d.Universe()
 		if bt.Prefix < 0 {
 			for p := 1; p <= n; p++ {
-				r.Seq("Prefix", p, 0, 0)
+				if !uni[p-1].Twin {
+					r.Seq("Prefix", p, 0, 0)
+				}
 			}
 		} else {
 			// the structurally interesting probes always: probe-only entries and entries that are a
@@ -685,7 +688,9 @@ func (r *Rec) RunBattery(bt Battery) {
 				r.Seq("Prefix", p, 0, 0)
 			}
 			for i := 0; i < bt.Prefix; i++ {
-				r.Seq("Prefix", 1+r.R.Intn(n), 0, 0)
+				if p := 1 + r.R.Intn(n); !uni[p-1].Twin {
+					r.Seq("Prefix", p, 0, 0)
+				}
 			}
 		}
 	}
@@ -704,8 +709,8 @@ func (r *Rec) prefixProbes() []int {
 	uni := r.D.Universe()
 	r.probes = []int{}
 	for i, e := range uni {
-		interesting := e.Probe
-		if !interesting {
+		interesting := e.Probe && !e.Twin
+		if !interesting && !e.Twin {
 			for j, f := range uni {
 				if i != j && len(f.O) > len(e.O) && string(f.O[:len(e.O)]) == string(e.O) {
 					interesting = true
@@ -745,6 +750,9 @@ func (r *Rec) randomIterCheck(sz int) {
 		}
 	case "Prefix":
 		a = 1 + r.R.Intn(n)
+		if d.Universe()[a-1].Twin {
+			name = "All"
+		}
 	}
 	// stop positions 0..len and complete passes, 2..4 iterations of the same value
 	var stops []int
